@@ -25,6 +25,7 @@ import (
 	"net"
 	"strings"
 	"sync"
+	"sync/atomic"
 	"time"
 
 	mqPkts "github.com/eclipse/paho.mqtt.golang/packets"
@@ -38,6 +39,10 @@ import (
 )
 
 type handler1 struct {
+	// Time of the last packet written to the MQTT broker (since startTime).
+	// Accessed atomically (hence the first field: 64-bit alignment).
+	lastBrokerWrite  int64
+	startTime        time.Time
 	cfg              *handlerConfig
 	id               string
 	log              util.Logger
@@ -57,6 +62,12 @@ type handler1 struct {
 	pktBuffer         []snPkts.Packet
 	// Stops the pinger of the current sleep period (MQTT-SN receive loop only).
 	stopSleepPinger func()
+	// The sleep duration the client announced; it applies to every sleep
+	// cycle until the next DISCONNECT or CONNECT (MQTT-SN receive loop only).
+	sleepDuration uint16
+	// PINGREQs the gateway has sent to the broker on its own and which have
+	// not been answered yet. Accessed atomically.
+	ownPings int32
 	// TopicIDs of the topics registered by the gateway (topic name => TopicID).
 	registrationTopicIDs map[string]uint16
 	group            *errgroup.Group
@@ -115,6 +126,7 @@ func newHandler(cfg *handlerConfig, predefinedTopics topics.PredefinedTopics,
 		cfg:              cfg,
 		log:              logger,
 		state:            &state,
+		startTime:        time.Now(),
 		predefinedTopics: predefinedTopics,
 		topicID:          util.NewIDSequence(snPkts.MinTopicAlias, snPkts.MaxTopicAlias),
 		transactions:     transactions.NewTransactionStore(),
@@ -444,7 +456,11 @@ func (h *handler1) handleMqtt(ctx context.Context, pkt mqPkts.ControlPacket) err
 
 	// Client PING transaction (keepalive).
 	case *mqPkts.PingrespPacket:
-		// Response to sleepPinger pings => do not pass to the sleeping client.
+		// Response to a ping of the gateway itself => do not pass to the client.
+		if atomic.LoadInt32(&h.ownPings) > 0 {
+			atomic.AddInt32(&h.ownPings, -1)
+			return nil
+		}
 		if h.state.Get() != util.StateActive {
 			return nil
 		}
@@ -483,6 +499,9 @@ func (h *handler1) snReceiveLoop(ctx context.Context) error {
 		}
 		err = h.handleMqttSn(ctx, pkt)
 		if err != nil {
+			return err
+		}
+		if err := h.keepBrokerAlive(); err != nil {
 			return err
 		}
 	}
@@ -870,6 +889,8 @@ func (h *handler1) handleMqttSn(ctx context.Context, pkt snPkts.Packet) error {
 			// The client goes back to sleep after PINGRESP.
 			// See MQTT-SN specification v. 1.2, chapter 6.14.
 			h.setState(util.StateAsleep)
+			// The announced sleep duration applies to the new sleep cycle too.
+			h.armSleepPinger(ctx, h.sleepDuration)
 			return nil
 		} else {
 			mqPkt := mqPkts.NewControlPacket(mqPkts.Pingreq).(*mqPkts.PingreqPacket)
@@ -889,18 +910,8 @@ func (h *handler1) handleMqttSn(ctx context.Context, pkt snPkts.Packet) error {
 			return Shutdown
 		} else {
 			h.log.Debug("Going to sleep for %vs", snPkt.Duration)
-			// A new sleep period replaces the previous one: its pinger must not
-			// go on until the end of the period it was started for.
-			h.cancelSleepPinger()
-			if h.keepAlive != 0 && snPkt.Duration > h.keepAlive {
-				// We must ensure MQTT gateway considers client alive during sleep period.
-				cancelPinger := h.startSleepPinger(ctx)
-				timer := time.AfterFunc(time.Duration(snPkt.Duration)*time.Second, cancelPinger)
-				h.stopSleepPinger = func() {
-					timer.Stop()
-					cancelPinger()
-				}
-			}
+			h.sleepDuration = snPkt.Duration
+			h.armSleepPinger(ctx, snPkt.Duration)
 			// A sleeping client repeats its DISCONNECT if it has not got our
 			// reply: the packets queued for it in the meantime must be kept.
 			if h.state.Get() != util.StateAsleep {
@@ -960,6 +971,19 @@ func (h *handler1) handleMqttSn(ctx context.Context, pkt snPkts.Packet) error {
 	}
 }
 
+// armSleepPinger starts the pinger which keeps the broker connection alive
+// for one sleep cycle of the client, i.e. for the sleep duration the client
+// announced. A new sleep cycle replaces the previous one: its pinger must not
+// go on until the end of the cycle it was started for.
+func (h *handler1) armSleepPinger(ctx context.Context, duration uint16) {
+	h.cancelSleepPinger()
+	if h.keepAlive == 0 {
+		return
+	}
+	// We must ensure MQTT broker considers client alive during sleep period.
+	h.stopSleepPinger = h.startSleepPinger(ctx, time.Duration(duration)*time.Second)
+}
+
 func (h *handler1) cancelSleepPinger() {
 	if h.stopSleepPinger != nil {
 		h.stopSleepPinger()
@@ -967,22 +991,27 @@ func (h *handler1) cancelSleepPinger() {
 	}
 }
 
-func (h *handler1) startSleepPinger(ctx context.Context) context.CancelFunc {
+// startSleepPinger pings the broker once per keep-alive period until the
+// duration is over (a client which has not shown up by then is not kept alive
+// any longer) or until the returned function is called.
+func (h *handler1) startSleepPinger(ctx context.Context, duration time.Duration) context.CancelFunc {
 	ctx2, cancel := context.WithCancel(ctx)
+	period := time.Duration(h.keepAlive) * time.Second
 	h.group.Go(func() error {
 		h.log.Debug("Sleep pinger starts.")
 		defer h.log.Debug("Sleep pinger quits.")
-		for {
+		defer cancel()
+		for left := duration; left > period; left -= period {
 			select {
-			case <-time.After(time.Duration(h.keepAlive) * time.Second):
-				p := mqPkts.NewControlPacket(mqPkts.Pingreq).(*mqPkts.PingreqPacket)
-				if err := h.mqttSend(p); err != nil {
+			case <-time.After(period):
+				if err := h.pingBroker(); err != nil {
 					return err
 				}
 			case <-ctx2.Done():
 				return nil
 			}
 		}
+		return nil
 	})
 	return cancel
 }
@@ -1035,5 +1064,32 @@ func (h *handler1) mqttSend(pkt mqPkts.ControlPacket) error {
 	if err != nil {
 		return err
 	}
+	atomic.StoreInt64(&h.lastBrokerWrite, int64(time.Since(h.startTime)))
 	return nil
+}
+
+// pingBroker sends a PINGREQ on the gateway's own behalf. The broker's
+// PINGRESP is not passed to the client.
+func (h *handler1) pingBroker() error {
+	atomic.AddInt32(&h.ownPings, 1)
+	p := mqPkts.NewControlPacket(mqPkts.Pingreq).(*mqPkts.PingreqPacket)
+	return h.mqttSend(p)
+}
+
+// keepBrokerAlive is called after a packet from the client has been handled.
+// The packet proves that the client is alive but the gateway may have answered
+// it without sending anything to the broker (a REGISTER of a known topic,
+// a CONNECT or PINGREQ of a sleeping client, a DISCONNECT with a duration, ...).
+// The broker knows nothing about it and would drop a client which meets its
+// keep-alive obligations => ping the broker if nothing has been sent to it
+// for half of the keep-alive period.
+func (h *handler1) keepBrokerAlive() error {
+	if h.keepAlive == 0 || h.state.Get() == util.StateDisconnected {
+		return nil
+	}
+	idle := time.Since(h.startTime) - time.Duration(atomic.LoadInt64(&h.lastBrokerWrite))
+	if idle < time.Duration(h.keepAlive)*time.Second/2 {
+		return nil
+	}
+	return h.pingBroker()
 }
